@@ -39,6 +39,15 @@ class DryReal:
             op = {"op": "fork", "flags": gp.gen_flags(rng, tree), "delta": gp.gen_clock_delta(rng)}
             if rng.random() < 0.15:
                 op["sv"] = rng.choice(tc.SV_KINDS)
+            r = rng.random()
+            if r < 0.2:
+                op["perturb"] = "stale"      # a partial-pattern occurrence still shows an older value
+            elif r < 0.3:
+                op["perturb"] = "break"      # a pattern of some file has no match
+            elif r < 0.45:
+                op["perturb"] = "tag_collision"   # the version about to be announced already exists as a tag elsewhere
+                op["collision_flag"] = rng.choice([["--tag-scope", "branch"], ["--ignore-vcs-tag"]])
+            op["pick"] = rng.randrange(1000)
             ops.append(op)
         return {"project": project, "ops": ops}
 
@@ -66,10 +75,59 @@ class DryReal:
                 target = tc.derive_target(op["sv"], tree, state, text)
                 if target is not None:
                     args += ["--set-version", target]
+            override = None
+            perturb = op.get("perturb")
+            broken = None
+            if perturb == "stale":
+                cands = []
+                for f in project["files"]:
+                    for ln in f["lines"]:
+                        for sg in ln["segs"]:
+                            if not isinstance(sg, str) and not sg["slot"].startswith("{") and sg["slot"] != pattern:
+                                cands.append((f["path"], sg["slot"]))
+                cands = sorted(set(cands))
+                if cands:
+                    path_r = cands[op.get("pick", 0) % len(cands)]
+                    rtree = legacy.tokenize_any(path_r[1])
+                    st2 = dict(state)
+                    for fld in rp.fields_of(rtree):
+                        if fld in ("year_y", "year_g") and st2.get(fld, 0) % 100 > 2:
+                            st2[fld] -= 1
+                            break
+                        if fld in ("major", "minor", "patch", "inc0") and st2.get(fld, 0) > 0:
+                            st2[fld] -= 1
+                            break
+                        if fld == "month" and st2.get(fld, 0) > 1:
+                            st2[fld] -= 1
+                            break
+                    if st2 != state:
+                        override = {path_r: st2}
+                        ctx.probe("stale_partial_occurrence")
             wa = simworld.World(project)
-            wa.materialise(state, text)
+            wa.materialise(state, text, override)
             wb = simworld.World(project)
-            wb.materialise(state, text)
+            wb.materialise(state, text, override)
+            if perturb == "break":
+                from campaigns import faultpos
+                fl = faultpos.enumerate_faults(project)
+                fl = [x for x in fl if x["kind"] == "break"]
+                if fl:
+                    broken = fl[op.get("pick", 0) % len(fl)]
+                    if faultpos.apply_fault(wa, project, broken) is None or faultpos.apply_fault(wb, project, broken) is None:
+                        broken = None
+                    else:
+                        ctx.probe("forked_with_broken_pattern")
+            if perturb == "tag_collision" and wa.repo is not None and not op.get("sv"):
+                exp = tc.expectation(ctx, tree, state, text, flags, clock, False)
+                if exp[0] == "ok" and exp[2]:
+                    for w_ in (wa, wb):
+                        w_.repo.switch("other", create_from=w_.repo.head)
+                        cid = w_.repo.new_commit("elsewhere", [])
+                        w_.repo.tags[exp[2]] = cid
+                        w_.repo.switch("main")
+                        w_.repo.commit_log = []
+                    args = args + list(op.get("collision_flag", []))
+                    ctx.probe("forked_with_tag_collision")
             shim_a = fakevcs.VcsShim(wa.repo) if wa.repo is not None else None
             shim_b = fakevcs.VcsShim(wb.repo) if wb.repo is not None else None
             ra = invoker.invoke(wa.dir, ["update", "--dry"] + args, clock, shim_a, fakevcs.HookShim({}))
@@ -88,6 +146,9 @@ class DryReal:
                 ctx.violation("C13", "dry_mutated_vcs", facts, "`update --dry` issued a mutating VCS command or ran a hook")
             if ra.exit_code != 0:
                 ctx.probe("dry_reported_error")
+                # known finding F19: a file whose occurrences already show what the new version renders to
+                facts["file_already_current"] = bool(override) and all(
+                    rb_.after.get(pth) == rb_.before.get(pth) for (pth, _rg) in override)
                 if rb_.changed or rb_.exit_code == 0:
                     # C06: whenever --dry reports an error the real run changes nothing either
                     ctx.violation("C06", "dry_error_but_real_changed", facts,
